@@ -381,6 +381,7 @@ type proofInfo struct {
 }
 
 func (c *Ctx) finish(pi *proofInfo) int {
+	os.Remove(filepath.Join(c.VerifDir, ".bin", fmt.Sprintf("setprobe-%d", os.Getpid()))) // per-run probe binary (C18/C19)
 	wall := time.Since(c.start).Seconds()
 	// violations first (a concrete failing input), then broken correspondence, then broken proof
 	replayDir := filepath.Join(c.VerifDir, "replays")
